@@ -1,6 +1,7 @@
 package main
 
 import (
+	"go/constant"
 	"fmt"
 	"go/token"
 	"strings"
@@ -14,12 +15,13 @@ func init() {
 	register(&Check{
 		ID:  "C18",
 		Run: runC18,
-		Explanation: "Decides bookkeeping clauses of the writer whose breakage makes cross-reference offsets, /Length or the free list wrong: (R1 COUNT) in the object writers (writeObjectHeader, writeObjectTrailer, writeObject, writeStream, writeStreamObject, writeStreamDictObject, writeCommentLine/writeHeader) the byte count returned by every primitive write to the WriteContext (WriteString, Write, fmt.Fprintf(w,…)) flows — through +, conversions, phis and returned counts summed by the caller — into the function's returned count or into the store `Offset += …`; where the count is discarded, the same string's len() is part of the caller's offset sum (writeStreamObject/pdfString); WriteContext.WriteEol returns no count: a counting writer that uses it must add len(w.Eol) (1 or 2 bytes) to its count; (R2 snapshot) in writeObject and writeStreamDictObject SetWriteOffset(objNr) is executed before the first primitive write and the Offset update comes after the last one; (R3 length pairing) wherever a freshly computed length is stored into StreamDict.StreamLength (address of a local) every path to the function's return also updates the dictionary's /Length entry (Update/Insert/map store with key \"Length\"), so the serialised /Length and the byte count cannot diverge; writeStream compares the bytes written with *sd.StreamLength; (R4 free list) in EnsureValidFreeList every success return after validateFreeList re-links the last valid entry (`*lastValid.Offset = nextFree`, or lastValid == nil) — an early return placed before the re-link leaves a stale link to an in-use object; pdfcpu.WriteContext writes header → objects → xref → trailer in that order on every success path. NOT decided: numeric exactness of /Size, /W, /Index, EOL variants, object-stream index arithmetic.",
+		Explanation: "Decides bookkeeping clauses of the writer whose breakage makes cross-reference offsets, /Length or the free list wrong: (R1 COUNT) in the object writers (writeObjectHeader, writeObjectTrailer, writeObject, writeStream, writeStreamObject, writeStreamDictObject, writeCommentLine/writeHeader) the byte count returned by every primitive write to the WriteContext (WriteString, Write, fmt.Fprintf(w,…)) flows — through +, conversions, phis and returned counts summed by the caller — into the function's returned count or into the store `Offset += …`; where the count is discarded, the same string's len() is part of the caller's offset sum (writeStreamObject/pdfString); WriteContext.WriteEol returns no count: a counting writer that uses it must add len(w.Eol) (1 or 2 bytes) to its count; (R2 snapshot) in writeObject and writeStreamDictObject SetWriteOffset(objNr) is executed before the first primitive write and the Offset update comes after the last one; (R3 length pairing) wherever a freshly computed length is stored into StreamDict.StreamLength (address of a local) every path to the function's return also updates the dictionary's /Length entry (Update/Insert/map store with key \"Length\"), so the serialised /Length and the byte count cannot diverge; writeStream compares the bytes written with *sd.StreamLength; (R4 free list) in EnsureValidFreeList every success return after validateFreeList re-links the last valid entry (`*lastValid.Offset = nextFree`, or lastValid == nil) — an early return placed before the re-link leaves a stale link to an in-use object; pdfcpu.WriteContext writes header → objects → xref → trailer in that order on every success path. (R5) XRefTable.FreeObject increments the entry's generation on the way to Free = true, and XRefTable.UndeleteObject takes that increment back on the way to Free = false (the two are checked as a pair: dropping one of them makes header and xref entry of a revived object disagree). NOT decided: numeric exactness of /Size, /W, /Index, EOL variants, object-stream index arithmetic.",
 		Rules: []string{
 			"C18.R1 COUNT: written byte counts reach the offset bookkeeping",
 			"C18.R2 MPT: offset snapshot before the first write of an object",
 			"C18.R3 pairing: StreamLength and /Length updated together",
 			"C18.R4 MPT: free-list re-link before success; section order of WriteContext",
+			"C18.R5 siblings: FreeObject's generation bump is taken back by UndeleteObject",
 		},
 		Assumptions: []string{"bufio.Writer reports the bytes it accepted"},
 		Technique:   "value-flow accounting (forward slice of write counts to Offset stores / returned counts); must-pass-through dataflow; store pairing typestate",
@@ -110,6 +112,8 @@ func runC18(c *Ctx) {
 	r.MinInst["C18.R2"] = 2
 	r.MinInst["C18.R3"] = 3
 	r.MinInst["C18.R4"] = 3
+	r.MinInst["C18.R5"] = 1
+	checkFreeReviveInverse(c)
 	// ---- R1
 	for _, fid := range c18Writers {
 		fn := p.Func(fid)
@@ -483,4 +487,98 @@ func callerAddsLen(c *Ctx, fn *ssa.Function, prm *ssa.Parameter) bool {
 		})
 	}
 	return callers > 0 && ok
+}
+
+// ---------------- C18.R5 (round 3 of seeding): freeing and reviving an object are inverse on the generation ----------------
+
+// generationStep: +1 / -1 if fn stores (*entry.Generation ± 1) back through the entry's Generation pointer; also the
+// blocks of those stores.
+func generationSteps(fn *ssa.Function) (plus, minus []*ssa.Store) {
+	eachInstr(fn, func(_ *ssa.BasicBlock, _ int, i ssa.Instruction) {
+		st, ok := i.(*ssa.Store)
+		if !ok {
+			return
+		}
+		if !strings.HasSuffix(fieldPath(st.Addr), "Generation") {
+			return
+		}
+		b, ok := st.Val.(*ssa.BinOp)
+		if !ok {
+			return
+		}
+		k, isC := constInt(b.Y)
+		if !isC || k != 1 {
+			return
+		}
+		if !strings.HasSuffix(fieldPath(b.X), "Generation") {
+			return
+		}
+		switch b.Op {
+		case token.ADD:
+			plus = append(plus, st)
+		case token.SUB:
+			minus = append(minus, st)
+		}
+	})
+	return
+}
+
+func freeFlagStores(fn *ssa.Function, want bool) []*ssa.Store {
+	var out []*ssa.Store
+	eachInstr(fn, func(_ *ssa.BasicBlock, _ int, i ssa.Instruction) {
+		st, ok := i.(*ssa.Store)
+		if !ok {
+			return
+		}
+		fa, ok := st.Addr.(*ssa.FieldAddr)
+		if !ok {
+			return
+		}
+		if f := structField(fa.X.Type(), fa.Field); f == nil || f.Name() != "Free" {
+			return
+		}
+		if c, ok := st.Val.(*ssa.Const); ok && c.Value != nil && c.Value.Kind() == constant.Bool && constant.BoolVal(c.Value) == want {
+			out = append(out, st)
+		}
+	})
+	return out
+}
+
+// checkFreeReviveInverse: XRefTable.FreeObject bumps the entry's generation when it marks it free (7.5.4: the next
+// object to reuse the number gets the next generation). XRefTable.UndeleteObject takes an entry back out of the free list
+// because the document still refers to it — by the OLD generation. As long as the freeing side bumps, the reviving side
+// has to take the bump back before it clears Free, or the written header `n g obj` and the xref entry disagree.
+func checkFreeReviveInverse(c *Ctx) {
+	p, r := c.P, c.R
+	free := p.Func("pkg/pdfcpu/model.(*XRefTable).FreeObject")
+	revive := p.Func("pkg/pdfcpu/model.(*XRefTable).UndeleteObject")
+	if free == nil || revive == nil {
+		r.Bad("C18.R5", "pkg/pdfcpu/model.(*XRefTable).UndeleteObject", "anchor", "", "UNRESOLVED-ANCHOR: FreeObject / UndeleteObject not found")
+		return
+	}
+	fPlus, _ := generationSteps(free)
+	_, rMinus := generationSteps(revive)
+	setFree := freeFlagStores(free, true)
+	clrFree := freeFlagStores(revive, false)
+	if len(setFree) == 0 || len(clrFree) == 0 {
+		r.Bad("C18.R5", FuncID(revive), "free flag", p.Pos(revive.Pos()), "UNRESOLVED-ANCHOR: the stores entry.Free = true (FreeObject) / entry.Free = false (UndeleteObject) were not found")
+		return
+	}
+	bumps := len(fPlus) > 0
+	undone := false
+	for _, m := range rMinus {
+		for _, cl := range clrFree {
+			if m.Block() == cl.Block() || reachableBlocks(m.Block())[cl.Block()] {
+				undone = true
+			}
+		}
+	}
+	switch {
+	case bumps && !undone:
+		r.Bad("C18.R5", FuncID(revive), "generation", p.Pos(clrFree[0].Pos()), "FreeObject increments the entry's generation when it frees an object, but UndeleteObject clears Free without taking that increment back: the revived object is written as `n g obj` with the generation the document refers to while its xref entry carries g+1, so the entry no longer locates the object")
+	case !bumps && len(rMinus) > 0:
+		r.Bad("C18.R5", FuncID(free), "generation", p.Pos(setFree[0].Pos()), "UndeleteObject decrements the generation but FreeObject no longer increments it: a revived entry ends up one generation too low")
+	default:
+		r.OK("C18.R5", FuncID(revive), "generation", p.Pos(clrFree[0].Pos()), "FreeObject: generation+1 with Free = true; UndeleteObject: generation-1 (when > 0) on the way to Free = false", true)
+	}
 }
